@@ -8,7 +8,7 @@ PROP = dict(
     ],
     assumptions=[
         "core expression language: numbers, strings, booleans, identifiers, let with identifier/array/tuple/literal patterns, "
-        "\\p functions, calls, ->, =>, >>, where, orderby (default binder and explicit), + - * ^, comparisons, unary minus, cond, &&, ||, "
+        "\\p functions, calls, ->, =>, >>, where, orderby (default binder and explicit), + - * ^, comparisons, unary minus, attribute access e.name, cond, &&, ||, "
         "set/array/tuple/dict constructors, parentheses",
         "closures are first-class in let/call/arrow positions but not inside data; patterns are linear; orderby keys are distinct numbers "
         "(anything else is outside the model and checked only for 'no panic')",
